@@ -60,7 +60,15 @@ func VH_C13_api() {
 	}
 	switch vChoice("what", 4) {
 	case 0: // Reverse is the mirror image in non-decreasing order
-		rev, err := mk().Reverse().Collect()
+		// chained, or as a statement on a search value the caller keeps
+		// (`if asc { s.Reverse() }`): the modifiers act on the receiver
+		rs := mk()
+		if vChoice("style", 2) == 1 {
+			rs.Reverse()
+		} else {
+			rs = rs.Reverse()
+		}
+		rev, err := rs.Collect()
 		vAssert("C13.reverse.ok", err == nil && len(rev) == len(full))
 		for j := 1; j < len(rev); j++ {
 			vAssert("C13.reverse.nondecreasing", rev[j-1].(*vObj).A <= rev[j].(*vObj).A)
@@ -73,9 +81,17 @@ func VH_C13_api() {
 	case 1: // Limit(n) for an arbitrary n returns exactly the first min(n, matches)
 		n := vUint64("limit")
 		rev := vChoice("rev", 2) == 1
-		s := mk().Limit(n)
-		if rev {
-			s = s.Reverse()
+		s := mk()
+		if vChoice("style", 2) == 1 {
+			s.Limit(n)
+			if rev {
+				s.Reverse()
+			}
+		} else {
+			s = s.Limit(n)
+			if rev {
+				s = s.Reverse()
+			}
 		}
 		lim, err := s.Collect()
 		vAssert("C13.limit.ok", err == nil)
